@@ -79,6 +79,14 @@ CLAIMED = {
             "de-duplicated union for all size pairs), of compute_nnps_distance on a symbolic matrix (per-point two-variable "
             "lemma + linear composition: symmetric, in [0,1], 0 for equal samples) and of NNDVI.update/_compute_drift_threshold "
             "with argument obligations at the library boundary"),
+    "C11": ("DESIGN.md 7/C11",
+            "sklearn scaler / PCA / KDE are shape-correct stubs (scaler = fixed invertible affine map distinguishable from the "
+            "identity); rows are concrete placeholders, the per-component divergences are symbolic (uninterpreted functions of "
+            "their inputs) so the alarm decisions of the real internal Page-Hinkley monitor are solver-quantified",
+            "symbolic execution of the real PCACD.update with z3 against a reference model of the statement: window filling, what "
+            "reaches scaler / PCA / histogram / KDE (argument obligations incl. per-component bin range), schedule, maximum score, "
+            "drift iff the real Page-Hinkley twin alarms, reference replacement after drift, scaling on/off; kernel lemma: "
+            "identical samples have intersection score 0"),
     "C12": ("DESIGN.md 7/C12",
             "members modelled as the most general objects with the detector interface (arbitrary states/recommendations after "
             "every call); selectors as tagging functions; real-member runs reuse the kernel stubs of C01/C02",
